@@ -161,7 +161,7 @@ def _whole_container_body(case):
     from autograd.core import vspace
 
     kind = case.choice(["list", "tuple", "nested_list", "list_of_arrays"])
-    how = case.choice(["sin_sum", "sum", "dot", "norm", "anp_array", "multiply", "stack"])
+    how = case.choice(["sin_sum", "sum", "dot", "norm", "anp_array", "multiply", "stack", "multigrad_default"])
     mix = case.int(0, 2)  # 0: whole use only; 1: whole use + indexed use; 2: indexed use + whole use
     vseed = case.seed()
     (a, w), _ = values.generic(vseed, [(3,), (3,)], 0.4, 1.6)
@@ -201,7 +201,18 @@ def _whole_container_body(case):
     sample = {"argument": kind, "how": how, "mix": mix, "vseed": vseed}
     case.features.update(argument=kind, how=how, mix=mix)
     try:
-        g = autograd.grad(f)(arg)
+        if how == "multigrad_default":
+            # the container is a parameter left at its DEFAULT value; multigrad_dict differentiates with respect to every parameter by name
+            from autograd.differential_operators import multigrad_dict
+
+            def fm(q, p=arg):
+                return q * (anp.sum(anp.array(p) * w) + first(p) ** 2)
+
+            g = multigrad_dict(fm)(1.5)["p"]
+        else:
+            g = autograd.grad(f)(arg)
+    except ImportError as e:
+        return raised(e, "whole_container", sample=sample)  # (multigrad_dict needs the funcsigs package)
     except Exception as e:
         if not from_autograd(e) and not isinstance(e, (TypeError, ValueError)):
             raise
